@@ -72,6 +72,9 @@ type Tap struct {
 	closedFlag  int32
 	// liveMsgs counts NewMessage results not yet released (Transport contract).
 	liveMsgs int64
+
+	faultMu sync.Mutex
+	faults  []*SendFault
 }
 
 // NewTapPair creates two connected endpoints.
@@ -82,6 +85,35 @@ func NewTapPair(log *Log, nameA, nameB string, pol *YieldPolicy) (*Tap, *Tap) {
 }
 
 var errTapClosed = errors.New("tap transport: closed")
+var errInjected = errors.New("tap transport: injected send failure (nothing written)")
+
+// SendFault makes the send of one selected message fail cleanly.
+type SendFault struct {
+	Which string        // message kind, e.g. "finish"
+	ID    uint32        // question / answer id the message carries
+	Gate  chan struct{} // if non-nil the failing send blocks until it is closed
+	Hit   int32         // set when the send reached the fault (atomic)
+	Done  int32         // set when the send returned its error (atomic)
+}
+
+// ArmFault registers a one-shot fault for messages sent from this endpoint.
+func (t *Tap) ArmFault(f *SendFault) {
+	t.faultMu.Lock()
+	t.faults = append(t.faults, f)
+	t.faultMu.Unlock()
+}
+
+func (t *Tap) matchFault(m *WireMsg) *SendFault {
+	t.faultMu.Lock()
+	defer t.faultMu.Unlock()
+	for i, f := range t.faults {
+		if f.Which == m.Which && f.ID == m.ID {
+			t.faults = append(t.faults[:i], t.faults[i+1:]...)
+			return f
+		}
+	}
+	return nil
+}
 
 func (t *Tap) NewMessage(ctx context.Context) (rpccp.Message, func() error, capnp.ReleaseFunc, error) {
 	if atomic.LoadInt32(&t.closedFlag) != 0 {
@@ -114,6 +146,19 @@ func (t *Tap) NewMessage(ctx context.Context) (rpccp.Message, func() error, capn
 			return err
 		}
 		rec := Decode(rmsg)
+		if f := t.matchFault(rec); f != nil {
+			// seeded transport fault: the write fails cleanly (nothing
+			// reaches the wire, the transport stays usable), optionally
+			// after having been held up at a gate the script controls
+			t.log.Add(&Event{Kind: EvNote, Who: t.Name, Note: "send-held " + rec.String()})
+			atomic.StoreInt32(&f.Hit, 1)
+			if f.Gate != nil {
+				<-f.Gate
+			}
+			t.log.Add(&Event{Kind: EvNote, Who: t.Name, Note: "send-failed " + rec.String()})
+			atomic.StoreInt32(&f.Done, 1)
+			return errInjected
+		}
 		t.log.Add(&Event{Kind: EvSendBegin, Who: t.Name, Msg: rec})
 		if t.pol != nil {
 			t.pol.Wire(t.Name)
